@@ -806,8 +806,8 @@ def s_shift(name, e, layout):
 
 
 def s_assign_elem(name, e, layout):
-    if isinstance(e, (tuple, bytes)):
-        raise Skip()  # the assign interface reads sized values as arrays, not as one element
+    if isinstance(e, tuple):
+        raise Skip()  # the assign interface reads a tuple as an array of values, not as one element
     s = mk_series(name)
     a = cells(s.values)
     o = Obs()
@@ -835,17 +835,6 @@ def s_fillna(name, e, layout):
     arr[2] = arr[1]
     s3 = sf.Series(arr, index=IDX)
     o.col([a[0], e, e], s3.fillna_trailing(e).values, 'fillna_trailing')
-    return o
-
-
-def s_bytes_assign(name, e, layout):
-    """a bytes element through the assign interface (F26)"""
-    if not isinstance(e, bytes):
-        raise Skip()
-    s = mk_series(name)
-    a = cells(s.values)
-    o = Obs()
-    o.col([a[0], e, a[2]], s.assign.iloc[1](e).values, 'assign.iloc[1]')
     return o
 
 
@@ -888,7 +877,7 @@ def f_shift(name, e, layout):
 
 
 def f_assign_elem(name, e, layout):
-    if isinstance(e, (tuple, bytes)):
+    if isinstance(e, tuple):
         raise Skip()
     f = mk_frame(name, layout)
     c = fcols(name)
@@ -913,7 +902,7 @@ def f_assign_elem(name, e, layout):
 
 
 def f_assign_bloc(name, e, layout):
-    if isinstance(e, (tuple, bytes)):
+    if isinstance(e, tuple):
         raise Skip()
     import static_frame as sf
     f = mk_frame(name, layout)
@@ -1035,7 +1024,7 @@ def f_pivot(name, e, layout):
 ELEM_SITES = {
     's_searchsorted': s_searchsorted, 'f_pivot': f_pivot,
     's_reindex': s_reindex, 's_shift': s_shift, 's_assign_elem': s_assign_elem, 's_fillna': s_fillna,
-    's_bytes_assign': s_bytes_assign, 'f_reindex_rows': f_reindex_rows, 'f_reindex_cols': f_reindex_cols,
+    'f_reindex_rows': f_reindex_rows, 'f_reindex_cols': f_reindex_cols,
     'f_shift': f_shift, 'f_assign_elem': f_assign_elem, 'f_assign_bloc': f_assign_bloc, 'f_fillna': f_fillna,
     'i_fillna': i_fillna,
 }
@@ -1492,7 +1481,6 @@ def cell_detail(sup, sto):
 
 
 PY_MERGES = {('bool', 'num'), ('bool', 'bytes'), ('bool', 'td'), ('num', 'bytes'), ('num', 'td'), ('num', 'nat'), ('td', 'dt')}
-BYTES_ELEMS = ("b'xy'", "np.bytes_(b'wxyz')")
 
 
 def classify(f):
@@ -1506,11 +1494,6 @@ def classify(f):
             return 'F19-c07-bloc-assign-retypes-block-mate'
         return None
     if 'exc' in d:
-        if d['exc'] == 'RuntimeError' and 'unlabeled iterables' in d.get('msg', '') and d.get('e') in BYTES_ELEMS \
-                and site in ('s_fillna', 'f_fillna', 'i_fillna'):
-            return 'F26b-c07-fillna-bytes-refused'
-        if site == 'f_shift' and d['exc'] == 'ValueError' and 'could not broadcast' in d.get('msg', '') and d.get('e') in TUPLES:
-            return 'F30-c07-tuple-fill-refused'
         if site == 's_searchsorted' and d['exc'] == 'ValueError' and 'cannot assign' in d.get('msg', '') and d.get('e') in TUPLES:
             return 'F30-c07-tuple-fill-refused'
         if site == 'f_pivot' and d['exc'] == 'ValueError' and 'inhomogeneous' in d.get('msg', '') and d.get('e') in TUPLES:
@@ -1523,8 +1506,9 @@ def classify(f):
             (supc == 'dt' and d.get('sup_unit') in ('ns', 'ps', 'fs', 'as')) or
             (supc == 'td' and d.get('sup_unit') in ('Y', 'M', 'ns', 'ps', 'fs', 'as'))):
         return 'F26c-c07-datetime-units-object-int'
-    if site == 's_bytes_assign' and supc == 'bytes' and stoc == 'array':
-        return 'F26a-c07-bytes-element-0d-array'
+    if site == 'f_assign_elem' and d.get('where', '').startswith('assign.loc[q,[A,K]]') and supc == 'bytes' and stoc in ('bytes', 'num') \
+            and d.get('e') in ("b'xy'", "np.bytes_(b'wxyz')"):
+        return 'F26d-c07-bytes-element-frame-assign-columns'
     if d.get('py') and (supc, stoc) in PY_MERGES:
         return 'F25-c07-python-values-numpy-merge'
     if site == 'resolve_dtype' and supc == 'dt' and stoc == 'dt' and d.get('r') == 'datetime64[W]' and d.get('a') in ('M8[Y]', 'M8[M]'):
